@@ -183,11 +183,20 @@ def make_stub_classes():
         def __str__(self):
             return "verif stub"
 
+        live = None          # a responding reference device (PyDev / PyRom): closed loop, the transcript is recorded
+        recorded = None
+
         def write(self, data, timeout=None):
             self.tx.append(bytes(data))
-            if self.pi < len(self.pending):
+            c = None
+            if self.live is not None:
+                c = self.live.respond(bytes(data))
+                self.recorded.append(c)
+                self.read_budget += 4 * (len(c) if isinstance(c, (bytes, bytearray)) else sum(len(r) + 1 for r in c)) + 16
+            elif self.pi < len(self.pending):
                 c = self.pending[self.pi]
                 self.pi += 1
+            if c is not None:
                 if self.hid:
                     self.reports.extend(c)
                 elif c:
@@ -405,8 +414,8 @@ def op_line(op):
     raise ValueError(k)
 
 
-def run_real(cfg, transcript, ops):
-    """-> ([(result, status, [tx bytes])], leftover, reads)"""
+def run_real(cfg, transcript, ops, live=None):
+    """-> ([(result, status, [tx bytes], reads)], leftover, reads[, recorded transcript when `live` is a responding device])"""
     global _STUBS
     from spsdk.mboot.mcuboot import McuBoot
     from spsdk.mboot.protocol.bulk_protocol import MbootBulkProtocol
@@ -416,6 +425,8 @@ def run_real(cfg, transcript, ops):
     hid = cfg["tr"] == "hid"
     cls = _STUBS[1] if cfg["usb"] else _STUBS[0]
     dev = cls(transcript, hid, bool(cfg["partial"]))
+    if live is not None:
+        dev.live, dev.recorded = live, []
     proto = _proto_class(MbootBulkProtocol if hid else MbootSerialProtocol)(dev)
     mb = McuBoot(proto, cmd_exception=bool(cfg["ce"]))
     out = []
@@ -428,6 +439,8 @@ def run_real(cfg, transcript, ops):
             if isinstance(exc, RuntimeError) and "verif: read budget" in str(exc):
                 res = "E:unbounded"
         out.append((res, int(mb.status_code), dev.tx[n0:], dev.reads - r0))
+    if live is not None:
+        return out, dev.leftover(), dev.reads, dev.recorded
     return out, dev.leftover(), dev.reads
 
 
@@ -480,28 +493,37 @@ def parse_chunk(s, hid):
 
 def parse_op_answer(ans, hid):
     """'<res> st=<n> rd=<n> tx=<..> rel=<..>' -> (res, status, [tx], [released chunks], reads)"""
-    parts = ans.split(" ")
-    if len(parts) != 5:
-        return (ans, -1, [], [], -1)
-    res, st, rd, tx, rel = parts
-    txl = [] if tx[3:] == "." else [bytes.fromhex(w) if w != "-" else b"" for w in tx[3:].split(",")]
-    rell = [] if rel[4:] == "." else [parse_chunk(c, hid) for c in rel[4:].split(",")]
-    return res, int(st[3:]), txl, rell, int(rd[3:])
+    # defensive: an answer of any other shape is kept verbatim as the "result" so that every comparison with it disagrees
+    bad = (f"?{ans!r}", -1, [], [], -1)
+    try:
+        parts = ans.split(" ")
+        if len(parts) != 5:
+            return bad
+        res, st, rd, tx, rel = parts
+        if not (st.startswith("st=") and rd.startswith("rd=") and tx.startswith("tx=") and rel.startswith("rel=")):
+            return bad
+        txl = [] if tx[3:] == "." else [bytes.fromhex(w) if w != "-" else b"" for w in tx[3:].split(",")]
+        rell = [] if rel[4:] == "." else [parse_chunk(c, hid) for c in rel[4:].split(",")]
+        return res, int(st[3:]), txl, rell, int(rd[3:])
+    except (ValueError, AttributeError, TypeError):
+        return bad
 
 
 def model_live(drv, cfg, dev, ops):
     hid = cfg["tr"] == "hid"
     lines = [cfg_line(cfg), dev_line(dev), dev2_line(dev), "live"] + [op_line(o) for o in ops] + ["state"]
-    ans = drv.batch(lines)
-    per_op = [parse_op_answer(a, hid) for a in ans[4:-1]]
-    return per_op, ans[-1]
+    ans = [str(a) for a in drv.batch(lines)]
+    per_op = [parse_op_answer(a, hid) for a in ans[4:4 + len(ops)]]
+    per_op += [parse_op_answer("", hid)] * (len(ops) - len(per_op))
+    return per_op, (ans[-1] if len(ans) == len(lines) else "?")
 
 
 def model_script(drv, cfg, transcript, ops):
     hid = cfg["tr"] == "hid"
     lines = [cfg_line(cfg), script_line(transcript, hid)] + [op_line(o) for o in ops]
-    ans = drv.batch(lines)
-    return [parse_op_answer(a, hid) for a in ans[2:]]
+    ans = [str(a) for a in drv.batch(lines)]
+    per_op = [parse_op_answer(a, hid) for a in ans[2:2 + len(ops)]]
+    return per_op + [parse_op_answer("", hid)] * (len(ops) - len(per_op))
 
 
 def canon_op(res, status, tx, reads=None):
@@ -525,6 +547,9 @@ class PyDev:
         self.log = []
         self.ncmd = 0
         self.phase = None  # (tag, addr, remaining)
+        self.send = None   # serial device->host data phase paced by ACKs: [tag, chunks, final status]
+        self.pad = dev.get("pad", 0)
+        self.dummy = dev.get("dummy", 0)
         self.max_data_packet = 0
         self.bad_packets = 0
         self.events = []  # (kind, info) per command, in order: what the device did
@@ -594,6 +619,7 @@ class PyDev:
         idx = self.ncmd
         self.ncmd += 1
         self.phase = None
+        self.send = None
         self.pkt = 0
         ev = {"tag": tag, "params": params, "status": 0, "idx": idx}
         self.events.append(ev)
@@ -702,22 +728,25 @@ class PyDev:
             ev["status"] = 10000
 
     def data(self, p):
+        """-> ('stray_ok' | 'stray_bad' | 'abort' | 'refused' | 'more' | 'done', event)"""
         self.max_data_packet = max(self.max_data_packet, len(p))
         if self.phase is None:
-            if self.image_mode and p and len(p) <= self.mp:
+            if self.image_mode and self.send is None and p and len(p) <= self.mp:
                 self.image += p
-            else:
-                self.bad_packets += 1
-            return
+                return "stray_ok", None
+            self.bad_packets += 1
+            return "stray_bad", None
         if self.abort is not None and self.pkt == self.abort:
-            self.phase[3]["final"] = 10002
+            ev = self.phase[3]
+            ev["final"] = 10002
             self.phase = None
-            return
+            return "abort", ev
         if not p or len(p) > self.mp or len(p) > self.phase[2]:
             self.bad_packets += 1
-            self.phase[3]["final"] = 10002
+            ev = self.phase[3]
+            ev["final"] = 10002
             self.phase = None
-            return
+            return "refused", ev
         tag, a, rem, ev = self.phase
         self.pkt += 1
         if tag == 4:
@@ -732,6 +761,118 @@ class PyDev:
         if self.phase[2] == 0:
             self.phase = None
             self.finish(tag)
+            return "done", ev
+        return "more", ev
+
+    # ---- responses: the reference bootloader as a LIVE device (closed loop with the real host, no Lean involved)
+    @staticmethod
+    def _generic(st, tag):
+        return bytes([0xA0, 0, 0, 2]) + struct.pack("<2I", st & 0xFFFFFFFF, tag)
+
+    def _initial(self, ev):
+        """response payload to a command, from what the device did with it"""
+        tag, st = ev["tag"], ev["status"]
+        if st != 0:
+            if tag == 7 and st == 10300 and (ev["idx"], False) not in self.faults:
+                return bytes([0xA7, 0, 0, 2]) + struct.pack("<2I", 10300, 0)
+            return self._generic(st, tag)
+        if tag == 7:
+            v = ev["values"]
+            return bytes([0xA7, 0, 0, 1 + len(v)]) + struct.pack(f"<{1 + len(v)}I", 0, *v)
+        if tag == 0x0F:
+            v = ev["values"]
+            return bytes([0xAF, 0, 0, 2 + len(v)]) + struct.pack(f"<{2 + len(v)}I", 0, 4 * len(v), *v)
+        if "data" in ev:
+            rtag = {3: 0xA3, 0x10: 0xB0, 0x15: 0xB5}[tag]
+            return bytes([rtag, 0, 0, 2]) + struct.pack("<2I", 0, len(ev["data"]))
+        return self._generic(0, tag)
+
+    @staticmethod
+    def frame(t, p):
+        hdr = bytes([0x5A, t]) + struct.pack("<H", len(p))
+        return hdr + struct.pack("<H", crc16(hdr + p)) + p
+
+    def report(self, rid, p):
+        r = bytes([rid, 0]) + struct.pack("<H", len(p)) + p
+        return r + bytes(max(0, self.pad - len(r)))
+
+    def _chunks(self, data):
+        return [data[i:i + self.mp] for i in range(0, len(data), self.mp)] if self.mp > 0 else []
+
+    def respond(self, w):
+        """one host write in -> what the device sends in reaction (serial: bytes, HID: list of reports); also applies the effects"""
+        if self.hid:
+            if len(w) < 4:
+                return []
+            rid, _, ln = struct.unpack_from("<2BH", w)
+            p = w[4:4 + ln]
+            if len(p) < ln:
+                return []
+            if rid == 1:
+                n0 = len(self.events)
+                self.command(p)
+                if len(self.events) == n0:
+                    return []
+                ev = self.events[-1]
+                out = [self.report(3, self._initial(ev))]
+                if ev["status"] == 0 and "data" in ev:
+                    out += [self.report(4, c) for c in self._chunks(ev["data"])] + [self.report(3, self._generic(ev["final"], ev["tag"]))]
+                elif ev["status"] == 0 and "expect" in ev and ev["expect"] == 0:
+                    out.append(self.report(3, self._generic(ev["final"], ev["tag"])))
+                return out
+            if rid == 2:
+                kind, ev = self.data(p)
+                if kind == "abort":
+                    return [self.report(3, b""), self.report(3, self._generic(10002, ev["tag"]))]
+                if kind == "refused":
+                    return [self.report(3, self._generic(10002, ev["tag"]))]
+                if kind == "done":
+                    return [self.report(3, self._generic(ev["final"], ev["tag"]))]
+                return []
+            return []
+        if w == b"\x5a\xa6":
+            body = b"\x5a\xa7" + struct.pack("<IH", 0x50010300, 0)
+            return bytes(self.dummy) + body + struct.pack("<H", crc16(body))
+        if w == b"\x5a\xa1":
+            if self.send is not None:
+                tag, chunks, fin = self.send
+                if chunks:
+                    return self.frame(0xA5, chunks.pop(0))
+                self.send = None
+                return self.frame(0xA4, self._generic(fin, tag))
+            return b""
+        nak = b"\x5a\xa2"
+        if len(w) < 6 or w[0] != 0x5A:
+            return nak
+        t, ln, crc = w[1], w[2] | w[3] << 8, w[4] | w[5] << 8
+        p = w[6:]
+        if len(p) != ln or crc16(w[:4] + p) != crc:
+            self.bad_packets += 1
+            return nak
+        ack = b"\x5a\xa1"
+        if t == 0xA4:
+            n0 = len(self.events)
+            self.command(p)
+            if len(self.events) == n0:
+                return nak
+            ev = self.events[-1]
+            if ev["status"] == 0 and "data" in ev:
+                self.send = [ev["tag"], self._chunks(ev["data"]), ev["final"]]
+            elif ev["status"] == 0 and "expect" in ev and ev["expect"] == 0:
+                self.send = [ev["tag"], [], ev["final"]]
+            return ack + self.frame(0xA4, self._initial(ev))
+        if t == 0xA5:
+            kind, ev = self.data(p)
+            if kind == "abort":
+                return b"\x5a\xa3" + self.frame(0xA4, self._generic(10002, ev["tag"]))
+            if kind == "refused":
+                return ack + self.frame(0xA4, self._generic(10002, ev["tag"]))
+            if kind == "done":
+                return ack + self.frame(0xA4, self._generic(ev["final"], ev["tag"]))
+            if kind in ("more", "stray_ok"):
+                return ack
+            return nak
+        return nak
 
 
 def expected_success(op, evs, cfg, verify_ok=True):
@@ -1119,32 +1260,46 @@ def run_case(ck, s, drv, case, live_cache=None, strict_from=None):
     """case = {cfg, dev, ops, fault}.  Returns (real_per_op, ok)."""
     cfg, dev, ops, fault = case["cfg"], case["dev"], case["ops"], case.get("fault") or {"kind": "none"}
     hid = cfg["tr"] == "hid"
-    # 1. closed loop (model host + reference device) -> transcript
-    if live_cache is not None and "live" in live_cache:
-        live, state = live_cache["live"]
+    # 1. closed loop WITHOUT the Lean model: the REAL host against the live python reference device -> results + recorded transcript
+    #    (everything the oracle uses comes from here; the Lean model only takes part in s.compare)
+    if live_cache is not None and "base" in live_cache:
+        base_real, base_left, transcript = live_cache["base"]
     else:
-        live, state = model_live(drv, cfg, dev, ops)
+        base_real, base_left, _rd, transcript = run_real(cfg, [], ops, live=PyDev(dev, hid))
         if live_cache is not None:
-            live_cache["live"] = (live, state)
-    transcript = [c for (_r, _st, _tx, rel, _rd) in live for c in rel]
-    writes_per_op = [len(tx) for (_r, _st, tx, _rel, _rd) in live]
+            live_cache["base"] = (base_real, base_left, transcript)
+    writes_per_op = [len(tx) for (_r, _st, tx, _rd2) in base_real]
     nofault = fault["kind"] == "none"
     t2 = apply_fault(transcript, fault, hid)
-    # 2. real host on the (faulted) transcript
-    real, leftover, _reads = run_real(cfg, t2, ops)
-    # 3. model host on the same transcript (open loop)
-    model = model_script(drv, cfg, t2, ops)
-    ok = True
-    for i, ((res, st, tx, rd), (mres, mst, mtx, _, mrd)) in enumerate(zip(real, model)):
-        if not s.compare({"case": case, "op_index": i}, canon_op(res, st, tx, rd), canon_op(mres, mst, mtx, mrd),
-                         "operation result / status_code / bytes written / number of device reads differ between McuBoot and the model"):
-            ok = False
-            break
+    # 2. real host: the closed-loop run itself, or a replay of the faulted transcript
     if nofault:
-        # the open-loop replay of the model must reproduce its own closed-loop run
-        for i, ((mres, mst, mtx, _, mrd), (lres, lst, ltx, _, lrd)) in enumerate(zip(model, live)):
-            s.compare({"case": case, "op_index": i, "what": "closed loop vs replay"}, canon_op(lres, lst, ltx, lrd), canon_op(mres, mst, mtx, mrd),
-                      "model: replay of the recorded transcript differs from the closed-loop run")
+        real, leftover = base_real, base_left
+    else:
+        real, leftover, _reads = run_real(cfg, t2, ops)
+    # 3. model (compare only): the model host on the same transcript (open loop), and - without faults - the model host in closed loop
+    #    with the LEAN reference device, which must produce the same conversation as the real host with the python reference device
+    ok = True
+    state = None
+    if drv is not None:
+        model = model_script(drv, cfg, t2, ops)
+        for i, ((res, st, tx, rd), (mres, mst, mtx, _, mrd)) in enumerate(zip(real, model)):
+            if not s.compare({"case": case, "op_index": i}, canon_op(res, st, tx, rd), canon_op(mres, mst, mtx, mrd),
+                             "operation result / status_code / bytes written / number of device reads differ between McuBoot and the model"):
+                ok = False
+                break
+        if nofault:
+            if live_cache is not None and "live" in live_cache:
+                live, state = live_cache["live"]
+            else:
+                live, state = model_live(drv, cfg, dev, ops)
+                if live_cache is not None:
+                    live_cache["live"] = (live, state)
+            ltr = [c for (_r, _st, _tx, rel, _rd3) in live for c in rel]
+            s.compare({"case": case, "what": "device conversation"}, [chunk_str(c, hid) for c in transcript], [chunk_str(c, hid) for c in ltr],
+                      "what the reference device sends: python reference device (closed loop with McuBoot) vs Lean reference device (closed loop with the model host)")
+            for i, ((res, st, tx, rd), (lres, lst, ltx, _, lrd)) in enumerate(zip(real, live)):
+                s.compare({"case": case, "op_index": i, "what": "closed loop"}, canon_op(res, st, tx, rd), canon_op(lres, lst, ltx, lrd),
+                          "closed loop: McuBoot + python reference device vs model host + Lean reference device")
     # 4. oracle on the real host, with the python reference device fed by the real host's writes
     pydev = PyDev(dev, hid)
     fault_op = None
@@ -1237,8 +1392,9 @@ def run_case(ck, s, drv, case, live_cache=None, strict_from=None):
             s.expect(False, {"case": case}, "without any fault the host left bytes of the device unread", leftover, 0)
         # final device state: python reference fed by the REAL host's writes vs the Lean reference device driven by the model host
         want = pydev.state_str()
-        got = " ".join(p for p in state.split(" ") if p.startswith(("mem=", "sb=", "ncmd=", "img=", "ks=", "fuses=", "keys=")))
-        s.compare({"case": case, "what": "final device state"}, want, got, "final memory of the reference device differs (python reference fed by McuBoot's writes vs Lean reference device)")
+        got = " ".join(p for p in (state or "").split(" ") if p.startswith(("mem=", "sb=", "ncmd=", "img=", "ks=", "fuses=", "keys=")))
+        if state is not None:
+            s.compare({"case": case, "what": "final device state"}, want, got, "final memory of the reference device differs (python reference fed by McuBoot's writes vs Lean reference device)")
     return real, ok, soft_hits, transcript
 
 
@@ -1417,6 +1573,10 @@ def fault_class(fault, strict):
 
 def run(ck):
     ck.lean_obligations(generated=["MbootConsts", "SdpConsts", "MbootProps"])
+    # every driver op of this property evaluates Model/ definitions (host model, reference device, codecs built on the generated constants):
+    # none of them is a Spec-only oracle.  All expectations (s.expect) are computed in python from the real code and the python reference
+    # device; driver answers only ever enter s.compare.
+    ck.spec_ops = set()
     drv = ck.driver()
     setup_runtime()
     check_generated(ck)
@@ -1437,9 +1597,6 @@ def run(ck):
               "reference ROM, strict reads; SDP over USB-HID (SDPBulkProtocol), SDPS and the HAB log/status parsing are not modelled; SDP packets carry no "
               "checksum: corruption outside status words is undetectable by SPSDK and search-only")
     codec_stream(ck, drv)
-    if drv is None:
-        # model does not build: oracle only, on transcripts produced by the python reference... not available without the driver
-        return
 
     # ---- stream 1: op sequences without faults (closed loop transcript, replayed to the real host)
     s1 = ck.stream("sequences", "random configurations (serial strict/partial reads, HID plain/UsbDevice, cmd_exception on/off) x reference devices "
@@ -1493,8 +1650,7 @@ def run(ck):
         cache = {}
         run_case(ck, s2, drv, case, cache)
         hid = case["cfg"]["tr"] == "hid"
-        live, _state = cache["live"]
-        transcript = [c for (_r, _st, _tx, rel, _rd) in live for c in rel]
+        transcript = cache["base"][2]
         for fault, strict in enumerate_faults(transcript, hid, rng):
             if n_fault >= cap:
                 break
@@ -1540,8 +1696,7 @@ def crafted_stream(ck, drv):
                          {"op": "write_memory", "addr": 0, "n": n, "mem_id": 0, "seed": rng.randrange(1 << 30)},
                          {"op": "fill_memory", "addr": 0, "n": n, "pattern": 5}])
         case = {"cfg": cfg, "dev": dev, "ops": [op]}
-        live, _state = model_live(drv, cfg, dev, [op])
-        transcript = [c for (_r, _st, _tx, rel, _rd) in live for c in rel]
+        _base, _bl, _brd, transcript = run_real(cfg, [], [op], live=PyDev(dev, False))
         # choose a frame, cut its payload to k bytes, rewrite the CRC field to the CRC of the shortened frame as the host computes it
         frames = [(ci, it) for ci, c in enumerate(transcript) for it in walk_serial(c) if it[0] == "frame" and it[2] - it[1] > 7]
         if not frames:
@@ -1555,10 +1710,11 @@ def crafted_stream(ck, drv):
         newc = c[:st + 4] + struct.pack("<H", crc) + short
         t2 = transcript[:ci] + [newc] + [b""] * (len(transcript) - ci - 1)
         real, _left, _reads = run_real(cfg, t2, [op])
-        model = model_script(drv, cfg, t2, [op])
-        (res, stt, tx, rd), (mres, mst, mtx, _, mrd) = real[0], model[0]
+        res, stt, tx, rd = real[0]
         s.note((case, ci, k))
-        s.compare({"case": case, "chunk": ci, "keep": k}, canon_op(res, stt, tx, rd), canon_op(mres, mst, mtx, mrd))
+        if drv is not None:
+            mres, mst, mtx, _, mrd = model_script(drv, cfg, t2, [op])[0]
+            s.compare({"case": case, "chunk": ci, "keep": k}, canon_op(res, stt, tx, rd), canon_op(mres, mst, mtx, mrd))
         pydev = PyDev(dev, False)
         for w in tx:
             pydev.feed(w)
@@ -1657,10 +1813,11 @@ def cli_stream(ck, drv):
         if "seed" in op:
             op["seed"] = seed
         ops = [{"op": "open"}, op]
-        live, _state = model_live(drv, cfg, dev, ops)
-        transcript = [c for (_r, _st, _tx, rel, _rd) in live for c in rel]
-        mres, mst, _mtx, _rel, _mrd = live[1]
-        opened = live[0][0] == "ok:unit"
+        # reference run: the McuBoot API itself in closed loop with the python reference device (that run is held to the oracle in the
+        # `sequences` stream); blhost must mirror it.  The Lean model only takes part in the s.compare below.
+        api, _al, _ard, transcript = run_real(cfg, [], ops, live=PyDev(dev, hid))
+        mres, mst, _atx, _ard2 = api[1]
+        opened = api[0][0] == "ok:unit"
         stub = _STUBS[0](transcript, hid, False)
         proto = _proto_class(MbootBulkProtocol if hid else MbootSerialProtocol)(stub)
         res = runner.invoke(cmd, args, obj={"interface": proto, "use_json": use_json, "suppress_progress_bar": True, "silent": False})
@@ -1684,13 +1841,17 @@ def cli_stream(ck, drv):
             status = int(m.group(1)) if m else None
             words = [int(x) for x in re.findall(r"Response word \d+ = (\w+) \(", out.replace("True", "1").replace("False", "0"))]
         real = f"status={status} exit={'0' if exc is None else 'app' if isinstance(exc, SPSDKAppError) else type(exc).__name__} tx=" + ",".join(hx(w) for w in stub.tx)
-        model_exit = "0" if mst == 0 else "app"
-        model = f"status={mst} exit={model_exit} tx=" + ",".join(hx(w) for w in (live[0][2] + live[1][2]))
         if mres.startswith("E:"):
-            # the model operation raised (e.g. E:other for an unencodable value): only require that blhost fails too
+            # the API operation raised (e.g. E:other for an unencodable value): only require that blhost fails too
             s.expect(exc is not None, case, "blhost succeeds although the operation raises", out[-120:])
             continue
-        s.compare(case, real, model, "blhost printed status / exit status / bytes written differ from the model's operation")
+        want_api = f"status={mst} exit={'0' if mst == 0 else 'app'} tx=" + ",".join(hx(w) for w in (api[0][2] + api[1][2]))
+        s.expect(real == want_api, case, "blhost printed status / exit status / bytes written differ from the McuBoot API operation on the same device", real[:200], want_api[:200])
+        if drv is not None:
+            live, _state = model_live(drv, cfg, dev, ops)
+            lres, lst = live[1][0], live[1][1]
+            model = f"status={lst} exit={'0' if lst == 0 else 'app'} tx=" + ",".join(hx(w) for w in (live[0][2] + live[1][2]))
+            s.compare(case, real, model, "blhost printed status / exit status / bytes written differ from the model's operation")
         # response words and files
         if k == "get-property":
             want = [int(x) for x in mres[5:].split(";")] if mres.startswith("ok:i:") and mres[5:] != "-" else []
@@ -1850,7 +2011,7 @@ def sdps_rom_info(family):
     return _SDPS_ROM[family]
 
 
-def sdp_run_real(ce, transcript, ops, tr="serial"):
+def sdp_run_real(ce, transcript, ops, tr="serial", live=None):
     global _STUBS
     import spsdk.sdp.protocol.bulk_protocol as bulk
     from spsdk.sdp.protocol.bulk_protocol import SDPBulkProtocol
@@ -1864,6 +2025,7 @@ def sdp_run_real(ce, transcript, ops, tr="serial"):
     bulk.HID_REPORT["CMD"] = (0x01, 1024, False)
     bulk.HID_REPORT["DATA"] = (0x02, 1024, False)
     dev = _STUBS[0](transcript, hid, False)
+    dev.live, dev.recorded = live, []
     proto = _proto_class(SDPBulkProtocol if hid else SDPSerialProtocol)(dev)
     sdp = SDP(proto, cmd_exception=bool(ce))
     out = []
@@ -1877,17 +2039,26 @@ def sdp_run_real(ce, transcript, ops, tr="serial"):
         except Exception as exc:  # noqa: BLE001
             res = sdp_classify(exc)
         out.append((res, int(sdp.status_code.tag), int(sdp.hab_status), int(sdp.cmd_status), dev.tx[n0:]))
+    if live is not None:
+        return out, dev.leftover(), dev.recorded
     return out, dev.leftover()
 
 
 def sdp_parse_answer(ans):
-    parts = ans.split(" ")
-    if len(parts) != 6:
-        return (ans, -1, -1, -1, [], [])
-    res, st, hab, cs, tx, rel = parts
-    txl = [] if tx[3:] == "." else [bytes.fromhex(w) if w != "-" else b"" for w in tx[3:].split(",")]
-    rell = [] if rel[4:] == "." else [parse_chunk(c, True) for c in rel[4:].split(",")]  # list of reports / serial: one string
-    return res, int(st[3:]), int(hab[4:]), int(cs[3:]), txl, rell
+    # defensive: an answer of any other shape is kept verbatim as the "result" so that every comparison with it disagrees
+    bad = (f"?{ans!r}", -1, -1, -1, [], [])
+    try:
+        parts = ans.split(" ")
+        if len(parts) != 6:
+            return bad
+        res, st, hab, cs, tx, rel = parts
+        if not (st.startswith("st=") and hab.startswith("hab=") and cs.startswith("cs=") and tx.startswith("tx=") and rel.startswith("rel=")):
+            return bad
+        txl = [] if tx[3:] == "." else [bytes.fromhex(w) if w != "-" else b"" for w in tx[3:].split(",")]
+        rell = [] if rel[4:] == "." else [parse_chunk(c, True) for c in rel[4:].split(",")]  # list of reports / serial: one string
+        return res, int(st[3:]), int(hab[4:]), int(cs[3:]), txl, rell
+    except (ValueError, AttributeError, TypeError):
+        return bad
 
 
 def sdp_canon(res, st, hab, cs, tx):
@@ -1907,11 +2078,25 @@ class PyRom:
         self.recv = None
         self.ncmd = 0
         self.events = []
+        self.hab = struct.pack(">I", 0x12343412 if rom.get("locked") else 0x56787856)
+        self.err = rom.get("err", 0xF0F0F0F0)
+
+    @staticmethod
+    def reports(out):
+        """serial answer hab(4) ++ rest as device->host reports: HAB word in report 3, data / status in 64-byte RET reports (id 4, zero padded)"""
+        if not out:
+            return []
+        rest = out[4:]
+        return [b"\x03" + out[:4]] + [b"\x04" + rest[i:i + 64].ljust(64, b"\0") for i in range(0, len(rest), 64)]
+
+    def respond(self, w):
+        """one host write in -> what the ROM sends in reaction (serial: bytes, HID: list of reports); also tracks the effects (see feed)"""
+        return self.feed(w)
 
     def feed(self, w):
         if self.hid:
             if not w:
-                return
+                return []
             rid, payload = w[0], w[1:]
             if self.recv is not None:
                 if rid == 2:
@@ -1919,48 +2104,66 @@ class PyRom:
                     self.buf += payload[:n - len(self.buf)]
                     if len(self.buf) == n:
                         b, self.buf = self.buf, b""
-                        self.feed_serial(b)
+                        return self.reports(self.feed_serial(b))
             elif rid == 1:
                 self.buf = b""
-                self.feed_serial(payload[:16])
-            return
-        self.feed_serial(w)
+                return self.reports(self.feed_serial(payload[:16]))
+            return []
+        return self.feed_serial(w)
 
     def feed_serial(self, w):
+        word = lambda v: self.hab + struct.pack(">I", v & 0xFFFFFFFF)  # noqa: E731
         if self.recv is not None:
             tag, a, n, ev = self.recv
             self.recv = None
-            if len(w) == n:
-                ev["got"] = True
-                if tag == 0x0404 and ev["forced"] is None:
-                    if a + n <= len(self.mem):
-                        self.mem[a:a + n] = w
-                    else:
-                        ev["ok"] = False
-            return
+            if len(w) != n:
+                return b""
+            ev["got"] = True
+            if ev["forced"] is not None:
+                return word(ev["forced"])
+            if tag == 0x0404:
+                if a + n <= len(self.mem):
+                    self.mem[a:a + n] = w
+                    return word(0x88888888)
+                ev["ok"] = False
+                return word(0)          # address range refused
+            return word(0x128A8A12)
         if len(w) != 16:
-            return
+            return b""
         tag, a, fmt, cnt, val, _ = struct.unpack(">HIB2IB", w)
         idx = self.ncmd
         self.ncmd += 1
         ev = {"tag": tag, "forced": self.forced.get(idx), "ok": True}
         self.events.append(ev)
+        forced = ev["forced"]
         if tag == 0x0202:
             nb = fmt // 8
-            if ev["forced"] is None and fmt in (8, 16, 32) and a + nb <= len(self.mem):
+            if forced is None and fmt in (8, 16, 32) and a + nb <= len(self.mem):
                 self.mem[a:a + nb] = val.to_bytes(4, "little")[:nb]
-            else:
-                ev["ok"] = ev["forced"] == 0x128A8A12
-        elif tag in (0x0404, 0x0A0A, 0x0606):
+                return word(0x128A8A12)
+            ev["ok"] = forced == 0x128A8A12
+            return word(forced if forced is not None else 0)
+        if tag in (0x0404, 0x0A0A, 0x0606):
             if cnt == 0:
+                # nothing to wait for: answer at once
                 ev["got"] = True
-                if tag == 0x0404 and ev["forced"] is None and a > len(self.mem):
+                if forced is not None:
+                    return word(forced)
+                if tag == 0x0404 and a > len(self.mem):
                     ev["ok"] = False
-            else:
-                ev["got"] = False
-                self.recv = (tag, a, cnt, ev)
-        elif tag == 0x0101:
+                    return word(0)
+                return word(0x88888888 if tag == 0x0404 else 0x128A8A12)
+            ev["got"] = False
+            self.recv = (tag, a, cnt, ev)
+            return b""
+        if tag == 0x0101:
             ev["ok"] = a + cnt <= len(self.mem)
+            return self.hab + (bytes(self.mem[a:a + cnt]) if ev["ok"] else b"")
+        if tag == 0x0505:
+            return word(forced if forced is not None else self.err)
+        if tag == 0x0C0C:
+            return word(forced if forced is not None else 0x900DD009)
+        return self.hab
 
 
 def sdp_gen_ops(rng, size, nmax=6):
@@ -2015,11 +2218,22 @@ def sdp_streams(ck, drv):
         case = {"ce": ce, "tr": tr, "rom": rom, "ops": ops}
         forced = ";".join(f"{i}={v}" for i, v in rom["forced"]) or "-"
         head = [f"sdp_cfg {int(ce)} {tr}", f"sdp_rom {hx(gen_bytes(rom['mem_seed'], size))} {int(rom['locked'])} {rom['err']} {forced}"]
-        ans = drv.batch(head + ["sdp_live"] + [sdp_op_line(o) for o in ops] + ["sdp_state"])
-        live = [sdp_parse_answer(a) for a in ans[3:-1]]
-        # transcript: per host write, what the device releases (serial: bytes, HID: list of reports)
-        transcript = [(c if hid else b"".join(c)) for l in live for c in l[5]]
-        writes_per_op = [len(l[4]) for l in live]
+        # closed loop WITHOUT the Lean model: the real SDP host against the live python reference ROM -> results + recorded transcript
+        # (per host write, what the device releases; serial: bytes, HID: list of reports).  Everything the oracle uses comes from here.
+        base_real, base_left, transcript = sdp_run_real(ce, [], ops, tr, live=PyRom(rom, hid))
+        writes_per_op = [len(r[4]) for r in base_real]
+        lstate = None
+        if drv is not None:
+            # compare only: the model host in closed loop with the LEAN reference ROM must hold the same conversation
+            ans = [str(a) for a in drv.batch(head + ["sdp_live"] + [sdp_op_line(o) for o in ops] + ["sdp_state"])]
+            live = [sdp_parse_answer(a) for a in ans[3:3 + len(ops)]]
+            lstate = ans[-1] if len(ans) == len(ops) + 4 else "?"
+            ltr = [(c if hid else b"".join(c)) for l in live for c in l[5]]
+            s.compare({"sdp_case": case, "what": "device conversation"}, [chunk_str(c, hid) for c in transcript], [chunk_str(c, hid) for c in ltr],
+                      "what the reference ROM sends: python ROM (closed loop with SDP) vs Lean ROM (closed loop with the model host)")
+            for i, (r, m) in enumerate(zip(base_real, live)):
+                s.compare({"sdp_case": case, "op_index": i, "what": "closed loop"}, sdp_canon(*r), sdp_canon(*m[:5]),
+                          "closed loop: SDP + python reference ROM vs model host + Lean reference ROM")
 
         def op_of_chunk(cidx):
             acc = 0
@@ -2061,13 +2275,18 @@ def sdp_streams(ck, drv):
                     t2[ci2] = bytes(c)
                 elif k == "status":
                     t2[ci2] = t2[ci2][:off] + struct.pack(">I", fault["value"]) + t2[ci2][off + 4:]
-            real, leftover = sdp_run_real(ce, t2, ops, tr)
-            mans = drv.batch([head[0], "sdp_script " + (",".join(chunk_str(c, hid) for c in t2) if t2 else ".")] + [sdp_op_line(o) for o in ops])
-            model = [sdp_parse_answer(a) for a in mans[2:]]
+            if fault is None:
+                real, leftover = base_real, base_left
+            else:
+                real, leftover = sdp_run_real(ce, t2, ops, tr)
             inp = {"sdp_case": case, "fault": fault}
-            for i, (r, m) in enumerate(zip(real, model)):
-                if not stream.compare(dict(inp, op_index=i), sdp_canon(*r), sdp_canon(*m[:5]), "SDP operation result / status / bytes written differ between SDP and the model"):
-                    break
+            if drv is not None:
+                mans = [str(a) for a in drv.batch([head[0], "sdp_script " + (",".join(chunk_str(c, hid) for c in t2) if t2 else ".")] + [sdp_op_line(o) for o in ops])]
+                model = [sdp_parse_answer(a) for a in mans[2:2 + len(ops)]]
+                model += [sdp_parse_answer("")] * (len(ops) - len(model))
+                for i, (r, m) in enumerate(zip(real, model)):
+                    if not stream.compare(dict(inp, op_index=i), sdp_canon(*r), sdp_canon(*m[:5]), "SDP operation result / status / bytes written differ between SDP and the model"):
+                        break
             rom_o = PyRom(rom, hid)
             fault_op = None
             if fault is not None:
@@ -2120,8 +2339,9 @@ def sdp_streams(ck, drv):
                 if leftover:
                     stream.expect(False, inp, "without any fault the SDP host left bytes of the device unread", leftover, 0)
                 want = f"mem={hx(rom_o.mem)} ncmd={rom_o.ncmd}"
-                got = " ".join(p for p in ans[-1].split(" ") if p.startswith(("mem=", "ncmd=")))
-                stream.compare(dict(inp, what="final ROM state"), want, got, "final memory of the reference ROM differs (python reference fed by SDP's writes vs Lean ROM)")
+                got = " ".join(p for p in (lstate or "").split(" ") if p.startswith(("mem=", "ncmd=")))
+                if lstate is not None:
+                    stream.compare(dict(inp, what="final ROM state"), want, got, "final memory of the reference ROM differs (python reference fed by SDP's writes vs Lean ROM)")
 
         one(None, True, s)
         s.note(case, cls=f"{tr}/ce={int(ce)}/locked={int(rom['locked'])}")
@@ -2184,11 +2404,13 @@ def sdp_streams(ck, drv):
         ce = rng.random() < 0.5
         case = {"ce": ce, "tr": tr, "ops": ops}
         real, _left = sdp_run_real(ce, [], ops, tr)
-        mans = drv.batch([f"sdp_cfg {int(ce)} {tr}", "sdp_script ."] + [sdp_op_line(o) for o in ops])
-        model = [sdp_parse_answer(a) for a in mans[2:]]
         ss.note(case, cls=f"{tr}/{fam}/no_cmd={int(nc)}/pack={ps}")
-        for i, (r, m) in enumerate(zip(real, model)):
-            ss.compare({"sdps_case": case, "op_index": i}, sdp_canon(*r), sdp_canon(*m[:5]), "SDPS/SDP result or bytes written differ between implementation and model")
+        if drv is not None:
+            mans = [str(a) for a in drv.batch([f"sdp_cfg {int(ce)} {tr}", "sdp_script ."] + [sdp_op_line(o) for o in ops])]
+            model = [sdp_parse_answer(a) for a in mans[2:2 + len(ops)]]
+            model += [sdp_parse_answer("")] * (len(ops) - len(model))
+            for i, (r, m) in enumerate(zip(real, model)):
+                ss.compare({"sdps_case": case, "op_index": i}, sdp_canon(*r), sdp_canon(*m[:5]), "SDPS/SDP result or bytes written differ between implementation and model")
         # oracle: the data reaches the device once, in order, in reports of the family's size
         res, _st, _hab, _cs, tx = real[0]
         data = op_data(ops[0])
@@ -2212,8 +2434,6 @@ def replay(ck, data):
     drv = ck.driver()
     setup_runtime()
     s = ck.stream("replay", "cases of the replay file")
-    if drv is None:
-        return
     for c in data.get("cases", []):
         inp = c.get("input", {})
         case = inp.get("case") if isinstance(inp, dict) else None
